@@ -31,6 +31,27 @@ class HarnessError(Exception):
     pass
 
 
+class EnvironmentTrouble(Exception):
+    """The machine, not the code under test: thread, memory, descriptor or disk exhaustion."""
+
+
+def environment_trouble(e):
+    import errno
+    seen = set()
+    while e is not None and id(e) not in seen:
+        seen.add(id(e))
+        if isinstance(e, MemoryError):
+            return True
+        if isinstance(e, RuntimeError) and "can't start new thread" in str(e):
+            return True
+        if isinstance(e, OSError) and e.errno in (errno.EAGAIN, errno.ENOMEM, errno.EMFILE, errno.ENFILE, errno.ENOSPC):
+            return True
+        if "Resource temporarily unavailable" in str(e) or "Cannot allocate memory" in str(e):
+            return True
+        e = e.__cause__ or e.__context__
+    return False
+
+
 def library_exception(e):
     """An exception that escaped from seismic_zfp code on inputs the generators construct as valid is
     a property failure, bucketed by (type, innermost seismic_zfp frame); an exception raised by the
@@ -89,6 +110,7 @@ class Ctx:
         self.labels = collections.Counter()
         self.known_hits = collections.Counter()
         self.failures = []
+        self.env_trouble = []
         self.extra = {}
         self.exhaustive = None
         self._case_n = 0
@@ -144,11 +166,19 @@ class Ctx:
             except Violation:
                 raise
             except Exception as e:
+                if environment_trouble(e):
+                    # never a verdict about the code: the case is dropped and the run ends inconclusive (exit 2)
+                    self.labels["environment-trouble"] += 1
+                    self.env_trouble.append(f"{type(e).__name__}: {e}"[:200])
+                    return True
                 v = library_exception(e)
                 if v is None:
                     raise
                 raise v
         except Violation as v:
+            if self.env_trouble and ("can't start new thread" in v.detail or "Resource temporarily unavailable" in v.detail):
+                self.labels["environment-trouble"] += 1
+                return True
             kid = self.known.match(self.open_known, self.prop, case, v)
             if kid is not None:
                 self.known_hits[kid] += 1
@@ -278,6 +308,7 @@ class Ctx:
             "shard": self.shard, "evaluations": self.evaluations, "sigs": sorted(self.sigs),
             "samples": self.samples, "labels": dict(self.labels), "known_hits": dict(self.known_hits),
             "failures": self.failures, "extra": jsonable(self.extra), "exhaustive": self.exhaustive,
+            "env_trouble": self.env_trouble[:3],
             "wall_s": time.time() - self.t0,
         }
 
@@ -411,6 +442,8 @@ def run_property(prop, tier, seed):
                 results.append(r)
                 if r["status"] != "ok":
                     harness_errors.append(f"shard {i}: {r['error']}")
+                if r.get("env_trouble"):
+                    harness_errors.append(f"shard {i}: environment trouble (inconclusive, not a verdict): {r['env_trouble'][0]}")
             else:
                 # interpreter died: attribute to the case that was running
                 cur = os.path.join(work, "current_case.json")
